@@ -350,6 +350,24 @@ func (c *converter) trackAddedIngress() {
 				c.tracker.TrackNames(convtypes.ResourceIngress, name, convtypes.ResourceHABackend, backend.ID)
 			}
 		}
+		if url := c.readConfigKey(ing.Annotations, ingtypes.BackAuthURL); url != "" {
+			// the backend of a svc:// auth-url is built along with the ingress, and
+			// whoever builds a backend first defines how its endpoints are read
+			urlProto, urlHost, urlPort, _, _ := ingutils.ParseURL(url)
+			if (urlProto == "service" || urlProto == "svc") && urlHost != "" && urlPort != "" {
+				namespace, svcName := ing.Namespace, urlHost
+				if pos := strings.Index(urlHost, "/"); pos >= 0 {
+					namespace, svcName = urlHost[:pos], urlHost[pos+1:]
+				}
+				if svc, err := c.cache.GetService(ing.Namespace, namespace+"/"+svcName); err == nil {
+					if svcPort := convutils.FindServicePort(svc, urlPort); svcPort != nil {
+						if backend := c.haproxy.Backends().FindBackend(namespace, svcName, svcPort.TargetPort.String()); backend != nil {
+							c.tracker.TrackNames(convtypes.ResourceIngress, name, convtypes.ResourceHABackend, backend.ID)
+						}
+					}
+				}
+			}
+		}
 		port, _ := strconv.Atoi(c.readConfigKey(ing.Annotations, ingtypes.TCPTCPServicePort))
 		ctx := convtypes.ResourceHAHostname
 		if port > 0 {
